@@ -106,9 +106,9 @@ var plans = map[string]plan{
 	},
 	"C14": {
 		Property: "C14", Level: "exploration",
-		Quick:    []phase{{Scen: "C14", Seeds: 4000, Batch: 125}},
-		Thorough: []phase{{Scen: "C14", Seeds: 300000, Batch: 500}},
-		Rule:     "seeded: the C08 world plus 1..4 listener tasks that register, read promptly, read late, never read, or cancel at scheduler-chosen moments; the scheduler releases every notification send, registration and cancellation one at a time, so their completion order is known. The first-registered listener must receive exactly the notifications whose send points were passed, in order, with the CID and block count of the sync that sent each; every other listener exactly the run between its registration and its cancellation; cancelled listeners' channels close after what was queued. Non-trivial when two actions were simultaneously enabled; distinct = distinct (schedule hash, canonical log hash)",
+		Quick:    []phase{{Scen: "C14", Seeds: 4000, Batch: 125}, {Scen: "C15", Seeds: 2000, Batch: 125}},
+		Thorough: []phase{{Scen: "C14", Seeds: 300000, Batch: 500}, {Scen: "C15", Seeds: 100000, Batch: 500}},
+		Rule:     "second phase: the shutdown scenario (C15) with the same listener oracles, for the clause about notifications sent while Close is in progress and channels closed after what was queued. First phase, seeded: the C08 world plus 1..4 listener tasks that register, read promptly, read late, never read, or cancel at scheduler-chosen moments; the scheduler releases every notification send, registration and cancellation one at a time, so their completion order is known. The first-registered listener must receive exactly the notifications whose send points were passed, in order, with the CID and block count of the sync that sent each; every other listener exactly the run between its registration and its cancellation; cancelled listeners' channels close after what was queued. Non-trivial when two actions were simultaneously enabled; distinct = distinct (schedule hash, canonical log hash)",
 		Real:     []string{"dagsync.Subscriber (watch loop, per-publisher handlers, event distributor, idle-handler cleaner, Close)", "announce.Receiver (direct announcements)", "ipnisync.Sync/Syncer", "ipnisync.Publisher", "chanqueue", "go-ipld-prime traversal", "net/http client transport", "libp2p-HTTP discovery client"},
 		Stubs:    []string{"TCP/TLS (net.Pipe)", "HTTP server loop", "block stores (in-memory)", "wall clock (testing/synctest)", "gossip pubsub (absent: announcements are direct)", "libp2p stream transport (absent)"},
 		Assume:   commonAssume,
@@ -124,9 +124,9 @@ var plans = map[string]plan{
 	},
 	"C18": {
 		Property: "C18", Level: "fault_enumeration",
-		Quick:    []phase{{Scen: "C18", Enum: true, Seeds: 4000, Batch: 250}},
-		Thorough: []phase{{Scen: "C18", Enum: true, Seeds: 300000, Batch: 1000}},
-		Rule:     "enumerated: for each libp2p key type x {ingest, register}: the sealed request produced by the real client is altered in transit at every byte position (one bit; all eight in the thorough tier), truncated at 64 evenly spread lengths, extended by one byte, replayed to the other endpoint (cross-domain), and signed with a key of another identity of each key type; seeded: 2..8 requests per run over random multihash, context ID (0..64 bytes), metadata, 1..3 addresses, honest or Byzantine signer of any key type, random alteration. The admin endpoint calls the real Read functions; accepted <=> unaltered (or decoding to the same fields), right endpoint, signer is the named provider; the client's result must agree with the endpoint's. Every run is non-trivial; distinct = distinct canonical log hash",
+		Quick:    []phase{{Scen: "C18", Enum: true, Seeds: 4000, Batch: 250}, {Scen: "C18K", Seeds: 3000, Batch: 250}},
+		Thorough: []phase{{Scen: "C18", Enum: true, Seeds: 300000, Batch: 1000}, {Scen: "C18K", Seeds: 200000, Batch: 1000}},
+		Rule:     "C18K: 2..4 callers build 1..3 requests each with keys whose Sign is a scheduling point, so constructions overlap inside the signing step; every request built must be accepted by the real reader with the fields it was built from. C18 enumerated: for each libp2p key type x {ingest, register}: the sealed request produced by the real client is altered in transit at every byte position (one bit; all eight in the thorough tier), truncated at 64 evenly spread lengths, extended by one byte, replayed to the other endpoint (cross-domain), and signed with a key of another identity of each key type; seeded: 2..8 requests per run over random multihash, context ID (0..64 bytes), metadata, 1..3 addresses, honest or Byzantine signer of any key type, random alteration. The admin endpoint calls the real Read functions; accepted <=> unaltered (or decoding to the same fields), right endpoint, signer is the named provider; the client's result must agree with the endpoint's. Every run is non-trivial; distinct = distinct canonical log hash",
 		Real:     []string{"ingest/client (IndexContent, Register)", "ingest/model (MakeIngestRequest, ReadIngestRequest, MakeRegisterRequest, ReadRegisterRequest)", "libp2p record envelopes", "net/http client transport"},
 		Stubs:    []string{"indexer admin endpoint (harness handler over the real Read functions)", "TCP (net.Pipe)", "HTTP server loop"},
 		Assume:   commonAssume,
